@@ -65,12 +65,13 @@ def tlc_plan(tier):
         ("NativeRT_dyn_mc", "dyn", "mc", 0), ("NativeRT_dyn_gen", "dyn", "gen", 0), ("NativeRT_dyn_all", "dyn", "gen", 0),
         ("NativeRT_list_mc", "list", "mc", 0), ("NativeRT_list_gen", "list", "gen", 0), ("NativeRT_list_all", "list", "gen", 0),
         ("NativeRT_gc_gen", "gc", "mcgen", 0),
+        ("NativeStr_gen", "str", "mcgen", 0),
     ]
     if tier == "thorough":
         plan = [
             ("NativeRT_dyn_mc_t", "dyn", "mc", 0), ("NativeRT_dyn_gen_t", "dyn", "gen", 0), ("NativeRT_dyn_all_t", "dyn", "gen", 0),
             ("NativeRT_list_mc_t", "list", "mc", 0), ("NativeRT_list_gen", "list", "gen", 0), ("NativeRT_list_all_t", "list", "gen", 0),
-            ("NativeRT_gc_gen_t", "gc", "mcgen", 0),
+            ("NativeRT_gc_gen_t", "gc", "mcgen", 0), ("NativeStr_gen_t", "str", "mcgen", 0),
             ("NativeRT_dyn_sim", "dyn", "sim", 400), ("NativeRT_list_sim", "list", "sim", 300), ("NativeRT_gc_sim", "gc", "sim", 300),
         ]
     return plan
@@ -82,15 +83,18 @@ def run_tlc_jobs(ctx, consts):
 
     def one(job):
         cfg, fam, kind, nsim = job
-        ic, gr = consts[fam]
-        kw = dict(cfg=cfg, workers=workers, timeout=1500, constants={"InitialCapacity": ic, "Growth": gr})
+        module = "NativeStr" if fam == "str" else "NativeRT"
+        kw = dict(cfg=cfg, workers=workers, timeout=1500)
+        if fam != "str":
+            ic, gr = consts[fam]
+            kw["constants"] = {"InitialCapacity": ic, "Growth": gr}
         if kind == "sim":
             kw.update(simulate=nsim, depth=260, workers=min(4, workers))
-        r = tlc(ctx, "NativeRT", **kw)
+        r = tlc(ctx, module, **kw)
         if r.violated:
             # the model is ours: a violated invariant on it is a defect of the spec, unless the
             # extracted constants made it so (then the ASSUME names them)
-            raise InfraError("NativeRT/%s: TLC reports %s\n%s" % (cfg, r.violated, "\n".join(r.trace[-3:])[-3000:]))
+            raise InfraError("%s/%s: TLC reports %s\n%s" % (module, cfg, r.violated, "\n".join(r.trace[-3:])[-3000:]))
         if kind != "sim" and "Model checking completed. No error has been found" not in r.out:
             raise InfraError("NativeRT/%s did not complete:\n%s" % (cfg, r.out[-2000:]))
         # keep the histories as compact JSON lines; drop TLC's text and the parsed objects (memory)
@@ -359,7 +363,7 @@ def run(ctx):
     # --- A. model checking + generation
     jobs = run_tlc_jobs(ctx, consts)
     states = transitions = 0
-    records = {"dyn": [], "list": [], "gc": []}
+    records = {"dyn": [], "list": [], "gc": [], "str": []}
     seen = set()
     generated = 0
     for (cfg, fam, kind, nsim), r in jobs:
@@ -378,7 +382,7 @@ def run(ctx):
         raise InfraError("TLC printed no histories for some family: %s" % {k: len(v) for k, v in records.items()})
 
     all_fails, total = [], {}
-    for fam in ("dyn", "list", "gc"):
+    for fam in ("dyn", "list", "gc", "str"):
         fails, st = replay_histories(ctx, probe, records[fam], fam)
         all_fails += fails
         for k, v in st.items():
@@ -428,6 +432,8 @@ def run(ctx):
         "and replayed for every kind of the class; NativeRT.tla never inspects the kind except through IsStruct/IsList",
         "the generation pass uses the shape view (length, capacity, flags): contents follow the representative history and are compared at every step; "
         "the separate model-checking pass is exhaustive over contents",
+        "nl_string.c: NativeStr.tla models one string (13 constructor calls, byte_at_safe, concat, substring, validate, utf8 length/char_at, to_cstr, reserve, shrink_to_fit, clone, free); "
+        "nl_string_byte_at (unchecked by contract), nl_string_utf8_substring and lengths near SIZE_MAX are not modelled",
         "calls the C API cannot detect (gc_retain/gc_release through a dangling pointer, over-release of a reference the caller does not own, malloc failure) are outside the contract and are not generated",
         "out-of-contract calls: every 16th (quick) / 4th (thorough) history runs the call in a forked child that must die by SIGABRT or exit(1); the others intercept __assert_fail()/exit() in process",
         "generated-code half: hand-written corpus under corpus/c20, sanitizer = gcc ASan+UBSan at -O0; leaks are not checked (the transpiler frees almost nothing by design)",
